@@ -519,7 +519,8 @@ def one_transect(obs, rng, env, line, cls, spec):
             a, b = worst[1], worst[2]
             explained = offset_present and a[2] and b[2]
             obs.fail('a point further along the path is reported at a smaller distance from the start',
-                     {'earlier point': a[3], 'its reported distance': a[1], 'later point': b[3], 'its reported distance': b[1],
+                     {'earlier point': a[3], 'reported distance of the earlier point': a[1], 'later point': b[3],
+                      'reported distance of the later point': b[1],
                       'segments': [a[4], b[4]], 'documented distance of a vertex to itself': max(metric.self_distance)},
                      mech='platecarree-latitude-offset' if explained else 'distance-not-monotonic')
     if seg_ok and segs:
@@ -533,7 +534,8 @@ def one_transect(obs, rng, env, line, cls, spec):
         if not bad:
             obs.ok()
         else:
-            explained = offset_present and all(e[2] for e in ends)
+            # explained by the offset only if the list IS sorted by the reported distances and those are the documented metric
+            explained = offset_present and all(e[2] for e in ends) and all(a <= b for a, b in zip(keys[:-1], keys[1:]))
             obs.fail('segments are not listed in path order', {'first out-of-order neighbours': bad[0], 'positions': pos[:12]},
                      mech='platecarree-latitude-offset' if explained else 'segments-not-in-path-order')
 
